@@ -329,7 +329,9 @@ theorem cancel_gap_counterexample :
 `gs : List Chg` is a change script of any length (single commands and joined two-command lines)
 together with what the device does on each line: the output it prints and, optionally, a reload
 banner in one of the four forms (`Form.before pad`, `.inside off`, `.afterPrompt pad`, `.after`) with
-any message.  `st` is any client state between two commands (`Ready`: nothing pending, reload
+any message.  `na` selects the dialogue variant of the device (`true`: `reload in 2` is answered directly with
+`Proceed with reload? [confirm]`, no `Save? [yes/no]` question); every theorem holds for both.
+`st` is any client state between two commands (`Ready`: nothing pending, reload
 active).  `Chg.Clean`: command lines contain no line feed/BEL/`#`/device name and do not end in a
 blank; outputs are whole lines, no line starting with the device name; banner messages are
 non-empty lines.  `Chg.NoProbeFirst` is the exact complement of finding F-C15b. -/
@@ -339,10 +341,10 @@ except a probing placement in the FIRST half of a joined line).  Running the scr
 and running it without them give the same result (ok / the same command rejected with the same
 non-blank output lines), the same warnings, and the same transcript once the re-arm exchanges
 are removed; no other kind of abort (time-out, echo mismatch, missing prompt) can occur. -/
-theorem banner_invariant_partial (gs : List Chg) (st : St SimSt) (q : List Behav) (hr : Ready st)
+theorem banner_invariant_partial (na : Bool) (gs : List Chg) (st : St SimSt) (q : List Behav) (hr : Ready st)
     (hq : st.dev.queue = gs.flatMap Chg.behavs ++ q) (hc : ∀ g ∈ gs, g.Clean ∧ g.NoProbeFirst) :
-    let o := changeLoop (simDevice []) true (gs.map Chg.cmd) st
-    let o0 := changeLoop (simDevice []) true ((gs.map Chg.plain).map Chg.cmd)
+    let o := changeLoop (simDevice [] na) true (gs.map Chg.cmd) st
+    let o0 := changeLoop (simDevice [] na) true ((gs.map Chg.plain).map Chg.cmd)
       { st with dev := { st.dev with queue := (gs.map Chg.plain).flatMap Chg.behavs ++ q } }
     (∃ T, o.2.trace = st.trace ++ T ∧ o0.2.trace = st.trace ++ T.filter notRearm) ∧
     o.2.warns = o0.2.warns ∧
@@ -351,15 +353,15 @@ theorem banner_invariant_partial (gs : List Chg) (st : St SimSt) (q : List Behav
     (o.1 ≠ .ok () → ∃ ci R R0, o.1 = .abort (.unexpectedOutput ci R) ∧
         o0.1 = .abort (.unexpectedOutput ci R0) ∧ neLines R = neLines R0) := by
   intro o o0
-  have h := loop_spec gs st q hr hq hc
-  have h0 := loop_spec (gs.map Chg.plain)
+  have h := loop_spec na gs st q hr hq hc
+  have h0 := loop_spec na (gs.map Chg.plain)
     { st with dev := { st.dev with queue := (gs.map Chg.plain).flatMap Chg.behavs ++ q } } q
     ⟨hr.pend, hr.active, hr.parts⟩ rfl (by
       intro g hg
       obtain ⟨g', hg', rfl⟩ := List.mem_map.1 hg
       exact ⟨Chg.plain_clean g' (hc g' hg').1, Chg.plain_noProbe g'⟩)
-  rw [specOk_plain, specWarns_plain, firstBad_plain, specTrace_plain gs (fun g hg => (hc g hg).1)] at h0
-  refine ⟨⟨specTrace gs, h.1, h0.1⟩, by rw [h.2.1, h0.2.1], ?_, ?_, ?_⟩
+  rw [specOk_plain, specWarns_plain, firstBad_plain, specTrace_plain na gs (fun g hg => (hc g hg).1)] at h0
+  refine ⟨⟨specTrace na gs, h.1, h0.1⟩, by rw [h.2.1, h0.2.1], ?_, ?_, ?_⟩
   · cases hs : specOk gs with
     | true => exact ⟨fun _ => (h0.2.2.1 hs).1, fun _ => (h.2.2.1 hs).1⟩
     | false =>
@@ -389,23 +391,23 @@ theorem banner_invariant_partial (gs : List Chg) (st : St SimSt) (q : List Behav
 the changes, deferred `end`, `reload cancel`, `write memory` — succeeds with and without banners,
 with the same warnings, no reload pending, and transcripts that differ exactly by the re-arm
 exchanges inside the change phase. -/
-theorem banner_invariant_run (gs : List Chg) (q : List Behav) (st0 : St SimSt)
+theorem banner_invariant_run (na : Bool) (gs : List Chg) (q : List Behav) (st0 : St SimSt)
     (hp : st0.pend = []) (ht : st0.trace = []) (hparts : st0.dev.parts = [])
     (hq : st0.dev.queue = gs.flatMap Chg.behavs ++ q) (hc : ∀ g ∈ gs, g.Clean ∧ g.NoProbeFirst)
     (hok : specOk gs = true) :
-    let pre := prepCmds ++ [reloadCmd, lit "n", []] ++ [confCmd]
+    let pre := prepCmds ++ schedLines na ++ [confCmd]
     let suf := [endCmd] ++ [cancelCmd, []] ++ [writeCmd]
-    let o := applyCommands (simDevice []) true (gs.map Chg.cmd) st0
-    let o0 := applyCommands (simDevice []) true ((gs.map Chg.plain).map Chg.cmd)
+    let o := applyCommands (simDevice [] na) true (gs.map Chg.cmd) st0
+    let o0 := applyCommands (simDevice [] na) true ((gs.map Chg.plain).map Chg.cmd)
       { st0 with dev := { st0.dev with queue := (gs.map Chg.plain).flatMap Chg.behavs ++ q } }
     o.1 = .ok () ∧ o0.1 = .ok () ∧
-    o.2.trace = pre ++ specTrace gs ++ suf ∧
-    o0.2.trace = pre ++ (specTrace gs).filter notRearm ++ suf ∧
+    o.2.trace = pre ++ specTrace na gs ++ suf ∧
+    o0.2.trace = pre ++ (specTrace na gs).filter notRearm ++ suf ∧
     o.2.warns = o0.2.warns ∧
     pendingAfter (linesOf o.2.trace) = false := by
   intro pre suf o o0
-  have h := apply_sim_ok gs q st0 hp ht hparts hq hc hok
-  have h0 := apply_sim_ok (gs.map Chg.plain) q
+  have h := apply_sim_ok na gs q st0 hp ht hparts hq hc hok
+  have h0 := apply_sim_ok na (gs.map Chg.plain) q
     { st0 with dev := { st0.dev with queue := (gs.map Chg.plain).flatMap Chg.behavs ++ q } }
     hp ht hparts rfl (by
       intro g hg
@@ -438,31 +440,32 @@ theorem banner_invariant_run (gs : List Chg) (q : List Behav) (st0 : St SimSt)
       · exact hchg c2 hcl.cmds.2 x h
   refine ⟨h.1, h0.1, ?_, ?_, by rw [h.2.2.1, h0.2.2.1], ?_⟩
   · rw [h.2.1]; simp [fullTrace, pre, suf]
-  · rw [h0.2.1, fullTrace, specTrace_plain gs (fun g hg => (hc g hg).1)]; simp [pre, suf]
-  · exact no_reload_pending_after_success (simDevice []) true _ hclean st0 ht h.1
+  · rw [h0.2.1, fullTrace, specTrace_plain na gs (fun g hg => (hc g hg).1)]; simp [pre, suf]
+  · exact no_reload_pending_after_success (simDevice [] na) true _ hclean st0 ht h.1
 
 /-- **rearm_on_one_minute** (model of the repaired code).  In a script whose outputs are all
 accepted, for every element `g` (single command or joined line, at any position): its `Send` is
-followed by exactly one `do reload in 2` / `n` / confirmation exchange if the answer to ANY of its
+followed by exactly one `do reload in 2` (/ `n`) / confirmation exchange (`rearmLines na`, in both
+dialogue variants of the device: with and without the `Save? [yes/no]` question) if the answer to ANY of its
 lines carried a `SHUTDOWN in 0:01:00` / `00:01:00` banner (any form, any offset), by none
 otherwise, and then by the next command. -/
-theorem rearm_on_one_minute (pre post : List Chg) (g : Chg) (st : St SimSt) (q : List Behav) (hr : Ready st)
+theorem rearm_on_one_minute (na : Bool) (pre post : List Chg) (g : Chg) (st : St SimSt) (q : List Behav) (hr : Ready st)
     (hq : st.dev.queue = (pre ++ g :: post).flatMap Chg.behavs ++ q)
     (hc : ∀ x ∈ pre ++ g :: post, x.Clean ∧ x.NoProbeFirst) (hok : specOk (pre ++ g :: post) = true) :
-    let o := changeLoop (simDevice []) true ((pre ++ g :: post).map Chg.cmd) st
+    let o := changeLoop (simDevice [] na) true ((pre ++ g :: post).map Chg.cmd) st
     o.1 = .ok () ∧
-    o.2.trace = st.trace ++ (pre.flatMap fun x => x.cmd :: (if x.need then rearmLines else [])) ++
-      (g.cmd :: (if g.need then [doReloadCmd, lit "n", []] else [])) ++ specTrace post ∧
-    (specTrace post).head? = post.head?.map Chg.cmd := by
+    o.2.trace = st.trace ++ (pre.flatMap fun x => x.cmd :: (if x.need then rearmLines na else [])) ++
+      (g.cmd :: (if g.need then rearmLines na else [])) ++ specTrace na post ∧
+    (specTrace na post).head? = post.head?.map Chg.cmd := by
   intro o
-  have h := loop_spec (pre ++ g :: post) st q hr hq hc
+  have h := loop_spec na (pre ++ g :: post) st q hr hq hc
   have hpre : specOk pre = true := by
     simp only [specOk, List.all_append, Bool.and_eq_true] at hok; exact hok.1
   have hg : g.valid = true := by
     simp only [specOk, List.all_append, List.all_cons, Bool.and_eq_true] at hok; exact hok.2.1
   refine ⟨(h.2.2.1 hok).1, ?_, ?_⟩
-  · rw [h.1, specTrace_append_ok pre (g :: post) hpre]
-    simp [specTrace, hg, rearmLines]
+  · rw [h.1, specTrace_append_ok na pre (g :: post) hpre]
+    simp [specTrace, hg]
   · cases post with
     | nil => rfl
     | cons x xs => simp [specTrace]
@@ -472,10 +475,10 @@ two-command line whose FIRST half is answered with a `SHUTDOWN in 0:01:00` banne
 echo: no `do reload in 2` is ever sent, although the run succeeds. -/
 theorem rearm_unfixed_counterexample :
     ∃ g : Chg, g.Clean ∧ g.NoProbeFirst ∧ g.need = true ∧
-      (applyCommands (simDevice []) false [g.cmd] { dev := { queue := g.behavs } }).1 = .ok () ∧
-      doReloadCmd ∉ linesOf (applyCommands (simDevice []) false [g.cmd] { dev := { queue := g.behavs } }).2.trace ∧
+      (applyCommands (simDevice [] false) false [g.cmd] { dev := { queue := g.behavs } }).1 = .ok () ∧
+      doReloadCmd ∉ linesOf (applyCommands (simDevice [] false) false [g.cmd] { dev := { queue := g.behavs } }).2.trace ∧
       -- the repaired code re-arms exactly once on the same input
-      rearms (linesOf (applyCommands (simDevice []) true [g.cmd] { dev := { queue := g.behavs } }).2.trace) = 1 :=
+      rearms (linesOf (applyCommands (simDevice [] false) true [g.cmd] { dev := { queue := g.behavs } }).2.trace) = 1 :=
   ⟨.two (lit "no ip route 10.2.0.0 255.255.0.0 10.8.2.1") (lit "ip route 10.2.0.0 255.255.0.0 10.9.2.2")
       { form := .inside 5, msg := lit " --- SHUTDOWN in 0:01:00 ---" } {},
    Chg.clean_of_B _ (by decide +kernel), Chg.noProbe_of_B _ (by decide +kernel),
@@ -488,11 +491,11 @@ and the run aborts with a time-out, although the banner-free run succeeds. Likew
 after the output without a fresh prompt (`TryPrompt` consumes the second answer). -/
 theorem banner_invariant_counterexample :
     ∃ g : Chg, g.Clean ∧ ¬ g.NoProbeFirst ∧
-      (applyCommands (simDevice []) true [g.cmd] { dev := { queue := g.behavs } }).1 =
+      (applyCommands (simDevice [] false) true [g.cmd] { dev := { queue := g.behavs } }).1 =
         .abort (.timeout promptName) ∧
-      (applyCommands (simDevice []) true [g.plain.cmd] { dev := { queue := g.plain.behavs } }).1 = .ok () ∧
+      (applyCommands (simDevice [] false) true [g.plain.cmd] { dev := { queue := g.plain.behavs } }).1 = .ok () ∧
     ∃ g' : Chg, g'.Clean ∧ ¬ g'.NoProbeFirst ∧
-      (applyCommands (simDevice []) true [g'.cmd] { dev := { queue := g'.behavs } }).1 =
+      (applyCommands (simDevice [] false) true [g'.cmd] { dev := { queue := g'.behavs } }).1 =
         .abort (.timeout promptName) :=
   ⟨.two (lit "no ip route 10.2.0.0 255.255.0.0 10.8.2.1") (lit "ip route 10.2.0.0 255.255.0.0 10.9.2.2")
       { form := .before 2, msg := lit " --- SHUTDOWN in 0:02:00 ---" } {},
@@ -507,13 +510,13 @@ example : CleanCs [lit "ip route 10.1.0.0 255.255.0.0 10.9.1.1",
     lit "no ip route 10.2.0.0 255.255.0.0 10.8.2.1\nip route 10.2.0.0 255.255.0.0 10.9.2.2"] := by
   unfold CleanCs OKsend; decide +kernel
 
-example : (scheduleReload (simDevice []) (afterPrep (simDevice []) { dev := {} })).1 = .ok () := by
+example : (scheduleReload (simDevice [] false) (afterPrep (simDevice [] false) { dev := {} })).1 = .ok () := by
   decide +kernel
 
-example : writeCmd ∈ linesOf (applyCommands (simDevice []) true
+example : writeCmd ∈ linesOf (applyCommands (simDevice [] false) true
     [lit "ip route 10.1.0.0 255.255.0.0 10.9.1.1"] { dev := {} }).2.trace := by decide +kernel
 
-example : (applyCommands (simDevice []) true
+example : (applyCommands (simDevice [] false) true
     [lit "ip route 10.1.0.0 255.255.0.0 10.9.1.1"] { dev := {} }).1 = .ok () := by decide +kernel
 
 /-- the hypotheses of the banner theorems are satisfiable: the state in which `ApplyCommands` enters
@@ -523,7 +526,7 @@ example :
       { form := .before 2, msg := lit " --- SHUTDOWN in 0:01:00 ---", out := lit "INFO: x\n" }
     let g2 := Chg.two (lit "no ip route 10.2.0.0 255.255.0.0 10.8.2.1") (lit "ip route 10.2.0.0 255.255.0.0 10.9.2.2")
       { form := .afterPrompt 2, msg := lit " --- SHUTDOWN in 0:02:00 ---" } { form := .after, msg := lit "x" }
-    let D := simDevice []
+    let D := simDevice [] true
     let st := (sendCmd D confCmd (scheduleReload D (afterPrep D { dev := { queue := g1.behavs ++ g2.behavs } })).2).2
     (st.pend = [] ∧ st.reloadActive = true ∧ st.dev.parts = [] ∧ st.dev.queue = g1.behavs ++ g2.behavs) ∧
     g1.cleanB = true ∧ g2.cleanB = true ∧ g2.noProbeFirstB = true ∧ specOk [g1, g2] = true := by
